@@ -265,6 +265,9 @@ impl<'a, W: Write + 'a> ser::Serializer for &'a mut Serializer<W> {
                 }
                 let buf = v.to_be_bytes();
                 self.writer.write_all(&buf)?;
+                // The serializer may go on with another value (the value of a map entry
+                // whose key this was): that one is a long again
+                self.non_native_type = None;
             }
             _ => unreachable!(),
         }
@@ -581,6 +584,7 @@ impl<'a, W: Write + 'a> ser::Serializer for &'a mut Serializer<W> {
             }
             Some(NonNativeType::LazyValue) => {
                 // We just need to write the bytes
+                self.non_native_type = None;
             }
             // Timestamp should be handled by i64
             Some(NonNativeType::Timestamp)
